@@ -3,7 +3,7 @@ from fractions import Fraction
 import numpy as np
 from ..runner import Acc, HarnessError
 from ..refmodel import Fmt
-from ..common import Fxp, fx, codes, flags, fmt_of, reset_class_state
+from ..common import Fxp, fx, codes, flags, fmt_of, reset_class_state, build
 
 ID = 'C09'
 RULE = ('cases = (format pair, op in {/, //, %}, method raw/repr, rounding of the first operand, code pair with divisor != 0), executed with '
@@ -42,29 +42,29 @@ def run_op(op, x, y, method):
     return f(x, y, method=method)
 
 
-def judge(acc, fxm, fym, xs, ys, op, method, rnd, shape_mode, part):
+def judge(acc, fxm, fym, xs, ys, op, method, rnd, shape_mode, part, by='raw'):
     ys = [b for b in ys if b != 0]
     if not xs or not ys:
         return None
     case = {'part': part, 'fx': list(fxm), 'fy': list(fym), 'xs': list(xs), 'ys': list(ys), 'op': op, 'method': method, 'rounding': rnd,
-            'shape': shape_mode}
+            'shape': shape_mode, 'by': by}
     fz = result_fmt(op, fxm, fym)
     if fz.n_word < 1 or fz.n_word > 53:
         acc.skipped += 1
         return None
     if shape_mode == 'outer':
-        xa, ya = np.array(xs, dtype=np.int64).reshape(-1, 1), np.array(ys, dtype=np.int64).reshape(1, -1)
+        shx, shy = (len(xs), 1), (1, len(ys))
         pairs = [(a, b) for a in xs for b in ys]
     else:
-        xa, ya = xs[0], ys[0]
+        shx, shy = (), ()
         pairs = [(xs[0], ys[0])]
     acc.transitions += 1
     acc.evaluations += len(pairs)
     acc.dim('op', op, len(pairs))
     acc.dim('method', method, len(pairs))
     try:
-        x = Fxp(xa, fxm.signed, fxm.n_word, fxm.n_frac, raw=True, rounding=rnd)
-        y = Fxp(ya, fym.signed, fym.n_word, fym.n_frac, raw=True)
+        x = build(fxm, xs, shx, by, rounding=rnd)
+        y = build(fym, ys, shy, by)
         z = run_op(op, x, y, method)
         got = codes(z)
         gf = fmt_of(z)
@@ -131,6 +131,9 @@ def judge(acc, fxm, fym, xs, ys, op, method, rnd, shape_mode, part):
 
 
 def judge_all(acc, fxm, fym, xs, ys, part, scalars=False):
+    for op in OPS:
+        for method in ('raw', 'repr'):
+            judge(acc, fxm, fym, xs, ys, op, method, 'floor', 'outer', part, 'value')       # operands with an integer value type
     for rnd in ROUNDS:
         res = {}
         for op in OPS:
@@ -214,10 +217,12 @@ def replay(case):
     reset_class_state()
     acc = Acc()
     fxm, fym = Fmt(*case['fx']), Fmt(*case['fy'])
-    if case.get('identity') or case['shape'] == 'outer':
+    if case.get('by') == 'value':
+        judge(acc, fxm, fym, case['xs'], case['ys'], case['op'], case['method'], case['rounding'], case['shape'], case['part'], 'value')
+    elif case.get('identity') or case['shape'] == 'outer':
         judge_all(acc, fxm, fym, case['xs'], case['ys'], case['part'].rstrip('s'))
     else:
-        judge(acc, fxm, fym, case['xs'], case['ys'], case['op'], case['method'], case['rounding'], case['shape'], case['part'])
+        judge(acc, fxm, fym, case['xs'], case['ys'], case['op'], case['method'], case['rounding'], case['shape'], case['part'], case.get('by', 'raw'))
     return acc.violations
 
 
